@@ -175,7 +175,9 @@ func genKeys(c *ctx, emit func(ev)) {
 	for i := 0; i < 4; i++ {
 		k := rsaKey(i)
 		emit(ev{"op": "Spki", "n": B(k.N.Bytes()), "e": B(beInt(k.E))})
-		emit(ev{"op": "SpkiPair", "n": B(k.N.Bytes()), "es": []any{B([]byte{1, 0, 1}), B([]byte{3}), B([]byte{1, 0, 1}), B([]byte{0x7f, 0xff, 0xff, 0xff})}})
+		emit(ev{"op": "SpkiPair", "n": B(k.N.Bytes()), "es": []any{B([]byte{1, 0, 1}), B([]byte{3}), B([]byte{1, 0, 1}), B([]byte{0x7f, 0xff, 0xff, 0xff}),
+			// exponents at and above 2^31 (an int is 64 bits wide): the DER integer grows a sign octet at 2^31, 2^39, ...
+			B([]byte{0x80, 0, 0, 0}), B([]byte{1, 0, 0, 0, 1}), B([]byte{0xff, 0xff, 0xff, 0xff}), B([]byte{0x7f, 0xff, 0xff, 0xff, 0xff, 0xff, 0xff, 0xff})}})
 	}
 	for _, L := range []int{1, 64, 127, 128, 129, 255, 256, 257, 384, 512} {
 		n := randBytes(r, L)
